@@ -13,6 +13,7 @@ import (
 	"bytes"
 	"crypto/ed25519"
 	"encoding/json"
+	"errors"
 	"fmt"
 	"math"
 	"runtime"
@@ -67,6 +68,8 @@ type DStep struct {
 	T      int    `json:"t"`
 	P      int    `json:"p"`
 	Kind   string `json:"kind"`
+	Var    string `json:"var"` // othermsg: which other message (relative to the session's)
+	Msg    string `json:"msg"` // new: message class of the session
 	From   int    `json:"from"`
 	Res    string `json:"res"`
 	Acc    []int  `json:"acc"`
@@ -97,10 +100,11 @@ type session struct {
 	rnd   []dss.DistKeyShare
 	rnd2  []dss.DistKeyShare // one-time key of ANOTHER session
 	msg   []byte
-	msg2  []byte
+	class string // message class of the session
+	omu   sync.Mutex
+	ocach map[string]*dss.PartialSig // partials for other messages, by variant/signer
 	valid []*dss.PartialSig
 	osess []*dss.PartialSig
-	omsg  []*dss.PartialSig
 	mu    sync.Mutex
 	canon []byte // the signature of this session (first one produced)
 	who   string
@@ -246,9 +250,73 @@ func distKey(src string, suite *edwards25519.SuiteEd25519, secs []kyber.Scalar, 
 	return out, err
 }
 
-func newSession(src string, n, t int, seed int64) (*session, error) {
+// setupRefused: the library refused a step of an HONEST session set-up (not the DKG, which is C11's).
+type setupRefused struct {
+	stage string
+	class string // message class concerned
+	err   error
+}
+
+func (e *setupRefused) Error() string { return e.stage + ": " + e.err.Error() }
+
+// msgBytes concretises a message class.
+func msgBytes(class string) []byte {
+	pat := func(n int) []byte {
+		b := make([]byte, n)
+		for i := range b {
+			b[i] = byte(37*i + 11)
+		}
+		return b
+	}
+	switch class {
+	case "nil":
+		return nil
+	case "empty":
+		return []byte{}
+	case "b1":
+		return []byte{0x61}
+	case "b64":
+		return pat(64)
+	case "b4096":
+		return pat(4096)
+	default: // "text"
+		return []byte("C12 message to be signed")
+	}
+}
+
+// otherMsg concretises "another message" relative to m; label names its class for violation keys.
+func otherMsg(m []byte, variant string) (out []byte, label string) {
+	switch variant {
+	case "empty":
+		return []byte{}, "empty"
+	case "b1":
+		return []byte{0x61}, "b1"
+	case "prefix":
+		return append([]byte{}, m[:len(m)-1]...), "other:prefix"
+	case "flip":
+		o := append([]byte{}, m...)
+		o[len(o)-1] ^= 1
+		return o, "other:flip"
+	default: // "ext"
+		return append(append([]byte{}, m...), 0), "other:ext"
+	}
+}
+
+func (s *session) mkPartial(i int, rnd []dss.DistKeyShare, msg []byte, class string) (*dss.PartialSig, error) {
+	d, err := dss.NewDSS(s.suite, s.secs[i], s.pubs, s.long[i], rnd[i], msg, uint32(s.t))
+	if err != nil {
+		return nil, &setupRefused{"NewDSS", class, err}
+	}
+	ps, err := d.PartialSig()
+	if err != nil {
+		return nil, &setupRefused{"PartialSig", class, err}
+	}
+	return ps, nil
+}
+
+func newSession(src string, n, t int, class string, seed int64) (*session, error) {
 	suite := edwards25519.NewBlakeSHA256Ed25519()
-	s := &session{src: src, n: n, t: t, suite: suite, msg: []byte("C12 message to be signed"), msg2: []byte("C12 another message")}
+	s := &session{src: src, n: n, t: t, suite: suite, class: class, msg: msgBytes(class), ocach: map[string]*dss.PartialSig{}}
 	st := blake2xb.New([]byte(fmt.Sprintf("C12 participants %d %s %d %d", seed, src, n, t)))
 	for i := 0; i < n; i++ {
 		sc := suite.Scalar().Pick(st)
@@ -265,27 +333,16 @@ func newSession(src string, n, t int, seed int64) (*session, error) {
 	if s.rnd2, err = distKey(src, suite, s.secs, s.pubs, t); err != nil {
 		return nil, err
 	}
-	mk := func(i int, rnd []dss.DistKeyShare, msg []byte) (*dss.PartialSig, error) {
-		d, err := dss.NewDSS(suite, s.secs[i], s.pubs, s.long[i], rnd[i], msg, uint32(t))
-		if err != nil {
-			return nil, err
-		}
-		return d.PartialSig()
-	}
 	for i := 0; i < n; i++ {
-		a, err := mk(i, s.rnd, s.msg)
+		a, err := s.mkPartial(i, s.rnd, s.msg, class)
 		if err != nil {
 			return nil, err
 		}
-		b, err := mk(i, s.rnd2, s.msg)
+		b, err := s.mkPartial(i, s.rnd2, s.msg, class)
 		if err != nil {
 			return nil, err
 		}
-		c, err := mk(i, s.rnd, s.msg2)
-		if err != nil {
-			return nil, err
-		}
-		s.valid, s.osess, s.omsg = append(s.valid, a), append(s.osess, b), append(s.omsg, c)
+		s.valid, s.osess = append(s.valid, a), append(s.osess, b)
 	}
 	return s, nil
 }
@@ -300,7 +357,7 @@ func clonePS(ps *dss.PartialSig) *dss.PartialSig {
 
 // concretise builds the partial signature of an abstract kind. variant selects
 // among equivalent concretisations (deterministic per behaviour step).
-func (s *session) concretise(kind string, from int, variant uint64) (*dss.PartialSig, error) {
+func (s *session) concretise(kind, msgVar string, from int, variant uint64) (*dss.PartialSig, error) {
 	resign := func(ps *dss.PartialSig, signer int) error {
 		sig, err := schnorr.Sign(s.suite, s.secs[signer], ps.Hash(s.suite))
 		ps.Signature = sig
@@ -337,7 +394,23 @@ func (s *session) concretise(kind string, from int, variant uint64) (*dss.Partia
 	case "othersession":
 		return clonePS(s.osess[from]), nil
 	case "othermsg":
-		return clonePS(s.omsg[from]), nil
+		// signer `from` honestly signs ANOTHER message with the same keys
+		if msgVar == "" {
+			msgVar = "ext"
+		}
+		k := fmt.Sprintf("%s/%d", msgVar, from)
+		s.omu.Lock()
+		defer s.omu.Unlock()
+		if ps, ok := s.ocach[k]; ok {
+			return clonePS(ps), nil
+		}
+		om, label := otherMsg(s.msg, msgVar)
+		ps, err := s.mkPartial(from, s.rnd, om, label)
+		if err != nil {
+			return nil, err
+		}
+		s.ocach[k] = ps
+		return clonePS(ps), nil
 	case "badindex":
 		ps := clonePS(s.valid[int(variant%uint64(s.n))])
 		switch from {
@@ -361,8 +434,21 @@ type sessions struct {
 	panicked bool
 }
 
-func (ss *sessions) get(src string, n, t int) *session {
-	k := fmt.Sprintf("%s/%d/%d", src, n, t)
+// refused reports a refused honest set-up step as a violation.
+func (ss *sessions) refused(src string, n, t int, e *setupRefused) {
+	if ss.res == nil {
+		return
+	}
+	ss.res.Violate(fmt.Sprintf("%s/%s/setup/msg:%s/refused", ss.prop, src, e.class),
+		fmt.Sprintf("an honest DSS session for a message of class %q cannot be set up with %s keys: %s refused", e.class, src, e.stage),
+		map[string]any{"source": src, "n": n, "t": t, "stage": e.stage, "message_class": e.class, "error": e.err.Error()})
+}
+
+func (ss *sessions) get(src string, n, t int, class string) *session {
+	if class == "" {
+		class = "text"
+	}
+	k := fmt.Sprintf("%s/%d/%d/%s", src, n, t, class)
 	ss.mu.Lock()
 	defer ss.mu.Unlock()
 	if s, ok := ss.m[k]; ok {
@@ -370,7 +456,7 @@ func (ss *sessions) get(src string, n, t int) *session {
 	}
 	var s *session
 	var err error
-	if msg, stack, pn := core.Try(func() { s, err = newSession(src, n, t, ss.seed) }); pn {
+	if msg, stack, pn := core.Try(func() { s, err = newSession(src, n, t, class, ss.seed) }); pn {
 		s, err = nil, fmt.Errorf("panic: %s", msg)
 		ss.panicked = true
 		if ss.res != nil {
@@ -379,6 +465,11 @@ func (ss *sessions) get(src string, n, t int) *session {
 		}
 	}
 	if err != nil {
+		var sr *setupRefused
+		if errors.As(err, &sr) {
+			ss.refused(src, n, t, sr)
+			ss.panicked = true // a verdict was recorded: not a machinery failure
+		}
 		ss.errs[k] = err.Error()
 		s = nil
 	}
@@ -409,7 +500,7 @@ func replayDSS(prop string, s *session, bh DBehaviour, id string, res *core.Resu
 			map[string]any{"behaviour": bh, "source": s.src, "step": step, "expected": exp, "got": got, "n": s.n, "t": s.t})
 	}
 	if d, err = dss.NewDSS(s.suite, s.secs[p], s.pubs, s.long[p], s.rnd[p], s.msg, uint32(s.t)); err != nil {
-		viol("regular/new", "NewDSS", "error", 0, "ok", err.Error())
+		viol("setup/msg:"+s.class, "NewDSS", "refused", 0, "ok", err.Error())
 		return 0
 	}
 	selfFirst := false
@@ -421,7 +512,7 @@ func replayDSS(prop string, s *session, bh DBehaviour, id string, res *core.Resu
 			selfFirst = true
 		}
 		label := caseLabel(st, selfFirst)
-		ev.Eval(fmt.Sprintf("%s n%d t%d %s", s.src, s.n, s.t, id+fmt.Sprint(k)))
+		ev.Eval(fmt.Sprintf("%s n%d t%d %s %s", s.src, s.n, s.t, s.class, id+fmt.Sprint(k)))
 		switch st.Op {
 		case "verifyall":
 			// final phase: all participants verify the combined signature at the same time
@@ -458,9 +549,16 @@ func replayDSS(prop string, s *session, bh DBehaviour, id string, res *core.Resu
 				}
 			}
 		case "recv":
-			ps, err := s.concretise(st.Kind, st.From, core.Hash64(id, fmt.Sprint(k)))
+			ps, err := s.concretise(st.Kind, st.Var, st.From, core.Hash64(id, fmt.Sprint(k)))
 			if err != nil {
-				res.Skip("concretise:" + st.Kind)
+				var sr *setupRefused
+				if errors.As(err, &sr) { // the signer could not even produce its honest partial for the other message
+					res.Violate(fmt.Sprintf("%s/%s/setup/msg:%s/refused", prop, s.src, sr.class),
+						fmt.Sprintf("an honest DSS object for a message of class %q cannot be set up with %s keys: %s refused", sr.class, s.src, sr.stage),
+						map[string]any{"behaviour": bh, "source": s.src, "step": k, "stage": sr.stage, "error": sr.err.Error()})
+				} else {
+					res.Skip("concretise:" + st.Kind)
+				}
 				return k
 			}
 			var perr error
@@ -529,13 +627,21 @@ func replayDSS(prop string, s *session, bh DBehaviour, id string, res *core.Resu
 			}
 		}
 		var other error
-		if msg, stack, pn := core.Try(func() { other = eddsa.Verify(pub, s.msg2, sig) }); pn {
-			viol(label, "Signature", "eddsa.Verify-panics", k, "rejected", msg+"\n"+stack)
-			return k
+		others := [][]byte{append(append([]byte{}, s.msg...), 0)} // extension
+		if len(s.msg) > 0 {
+			others = append(others, []byte{}, s.msg[:len(s.msg)-1]) // the empty message, prefix
+		} else {
+			others = append(others, []byte{0x61}) // empty vs 1 byte
 		}
-		if other == nil {
-			viol(label, "Signature", "verifies-for-another-message", k, "rejected", "verifies")
-			return k
+		for _, om := range others {
+			if msg, stack, pn := core.Try(func() { other = eddsa.Verify(pub, om, sig) }); pn {
+				viol(label, "Signature", "eddsa.Verify-panics", k, "rejected", msg+"\n"+stack)
+				return k
+			}
+			if other == nil {
+				viol(label, "Signature", "verifies-for-another-message", k, "rejected", "verifies")
+				return k
+			}
 		}
 	}
 	return len(bh) - 1
@@ -647,9 +753,9 @@ func RunDSS(cfg DSSConfig, res *core.Result) error {
 						continue
 					}
 				}
-				s := ss.get(src, bh[0].N, bh[0].T)
+				s := ss.get(src, bh[0].N, bh[0].T, bh[0].Msg)
 				if s == nil {
-					res.Skip(fmt.Sprintf("no %s keys for n=%d t=%d", src, bh[0].N, bh[0].T))
+					res.Skip(fmt.Sprintf("no %s session for n=%d t=%d", src, bh[0].N, bh[0].T))
 					continue
 				}
 				if msg, stack, pn := core.Try(func() {
